@@ -8,21 +8,21 @@ Local Open Scope string_scope.
 Local Open Scope list_scope.
 Local Open Scope Z_scope.
 
-Arguments len : simpl never.
-Arguments to_bytes_be : simpl never.
-Arguments FFCDHKey_unpack : simpl never.
-Arguments FFCDHKey_pack : simpl never.
-Arguments ECDHKey_unpack : simpl never.
-Arguments ECDHKey_pack : simpl never.
-Arguments KDFParameters_unpack : simpl never.
-Arguments hash_algorithm : simpl never.
-Arguments curve_and_hash : simpl never.
-Arguments py_pow3 : simpl never.
-Arguments be_val : simpl never.
-Arguments utf16le_encode : simpl never.
-Arguments startswith : simpl never.
-Arguments py_truediv_ceil : simpl never.
-Arguments compute_l2_key : simpl never.
+Local Arguments len : simpl never.
+Local Arguments to_bytes_be : simpl never.
+Local Arguments FFCDHKey_unpack : simpl never.
+Local Arguments FFCDHKey_pack : simpl never.
+Local Arguments ECDHKey_unpack : simpl never.
+Local Arguments ECDHKey_pack : simpl never.
+Local Arguments KDFParameters_unpack : simpl never.
+Local Arguments hash_algorithm : simpl never.
+Local Arguments curve_and_hash : simpl never.
+Local Arguments py_pow3 : simpl never.
+Local Arguments be_val : simpl never.
+Local Arguments utf16le_encode : simpl never.
+Local Arguments startswith : simpl never.
+Local Arguments py_truediv_ceil : simpl never.
+Local Arguments compute_l2_key : simpl never.
 
 Definition liftb (r : res bytes) : res (pv obj) := let* b := r in Ok (VB b).
 
@@ -41,7 +41,7 @@ Proof. vm_compute. reflexivity. Qed.
 Lemma str_dh : STR_DH = [68; 72]. Proof. reflexivity. Qed.
 Lemma str_ecdh_p : STR_ECDH_P = [69; 67; 68; 72; 95; 80]. Proof. reflexivity. Qed.
 Lemma str_kdf_alg : STR_KDF_ALG = [83; 80; 56; 48; 48; 95; 49; 48; 56; 95; 67; 84; 82; 95; 72; 77; 65; 67]. Proof. reflexivity. Qed.
-Global Opaque KEK_CONTEXT KEK_ALGORITHM_ID.
+Local Opaque KEK_CONTEXT KEK_ALGORITHM_ID.
 
 Lemma curve_eqb_refl cv : curve_eqb cv cv = true.
 Proof. destruct cv; reflexivity. Qed.
